@@ -8,6 +8,16 @@
  * With FUZZ_DUMP defined the program instead prints, for every file named on the command line, the script as a JSON array. */
 #include "../corr.h"
 
+#ifdef FUZZ_Z
+/* FUZZ_TARGET=connz: the same driver with response decompression ON (gzip / deflate / lzma, layer and bomb limits). The model cannot
+ * follow these scripts without recorded inflate results, so the corpus (corpus/fuzz/connz.jsonl) is replayed by C01 for the sanitizer
+ * verdict and by C07's recording pass. */
+static const char *CFGS[] = {
+    "respdecomp=1,ztime=1000000", "respdecomp=1,ztime=1000000,layers=1", "respdecomp=1,ztime=1000000,layers=3", "respdecomp=1,ztime=1000000,bomb=1000",
+    "respdecomp=1,ztime=1000000,bomb=20000,layers=2", "respdecomp=1,ztime=1000000,lzmalayers=0", "respdecomp=1,ztime=1000000,lzmalayers=2",
+    "p=IDS,respdecomp=1,ztime=1000000,autodestroy=1", "respdecomp=1,ztime=1000000,hard=100", "respdecomp=1,ztime=1000000,urlenc=1,mpart=1",
+};
+#else
 static const char *CFGS[] = {
     "respdecomp=0", "p=IDS,respdecomp=0", "p=APACHE_2,respdecomp=0", "p=IIS_6_0,respdecomp=0", "p=IIS_7_5,respdecomp=0",
     "p=MINIMAL,respdecomp=0", "p=GENERIC,respdecomp=0", "p=IIS_5_1,respdecomp=0", "p=IIS_7_0,respdecomp=0",
@@ -15,6 +25,7 @@ static const char *CFGS[] = {
     "respdecomp=0,autodestroy=1", "respdecomp=0,hard=40", "respdecomp=0,hard=100,urlenc=1", "respdecomp=0,maxtx=2",
     "respdecomp=0,cookies=0,auth=0", "p=IDS,respdecomp=0,hard=17", "respdecomp=0,mpart=1", "p=APACHE_2,respdecomp=0,urlenc=1,autodestroy=1,maxtx=5",
 };
+#endif
 #define NCFG (sizeof CFGS / sizeof CFGS[0])
 static const char *ACTS[] = { "stop", "error", "declined", "destroy", "reg" };
 
